@@ -9,7 +9,7 @@ from pyvc.theories.cursor import Cursor, VIEWS, INF, mem, score_at, pos, minv
 BIN = "whoosh.matching.binary"
 PROPS_CUR = ["C11", "C01"]          # cursor protocol + which documents
 PROPS_SC = ["C09", "C11"]           # score composition
-PROPS_Q = ["C12", "C05"]            # quality bounds / top-N skipping
+PROPS_Q = ["C12", "C05", "C09"]     # quality bounds / top-N skipping (scores of what survives: C09)
 
 
 def _ab(o):
